@@ -511,8 +511,20 @@ void DNS::convert_records(const uint8_t* ptr,
 
 // no length checks, records should already be valid
 uint8_t* DNS::update_dname(uint8_t* ptr, uint32_t threshold, uint32_t offset) {
-    while (*ptr != 0) {
+    // Names inside record data are not validated when parsing, so make sure
+    // we never walk past the end of the records
+    const uint8_t* end = &records_data_[0] + records_data_.size();
+    while (true) {
+        if (ptr >= end) {
+            throw malformed_packet();
+        }
+        if (*ptr == 0) {
+            break;
+        }
         if ((*ptr & 0xc0)) {
+            if (end - ptr < 2) {
+                throw malformed_packet();
+            }
             uint16_t index;
             memcpy(&index, ptr, sizeof(uint16_t));
             index = Endian::be_to_host(index) & 0x3fff;
@@ -527,6 +539,9 @@ uint8_t* DNS::update_dname(uint8_t* ptr, uint32_t threshold, uint32_t offset) {
             return ptr + sizeof(uint16_t);
         }
         else {
+            if (static_cast<size_t>(end - ptr) < static_cast<size_t>(*ptr) + 1) {
+                throw malformed_packet();
+            }
             ptr += *ptr + 1;
         }
     }
